@@ -229,10 +229,17 @@ impl<Effect, Event> Command<Effect, Event> {
         //
         // Note that there is an exception: the task may have used the waker and dropped it,
         // making it ready, rather than abandoned.
+        //
+        // The count must be read before the flag: another thread may wake the task (which sets
+        // the flag) and drop its copy of the waker at any moment. Once we have seen that ours is
+        // the only copy, nobody can set the flag any more, so reading it afterwards is decisive;
+        // in the opposite order a task woken between the two reads would look abandoned.
+        let waker_is_unique = Arc::strong_count(&arc_waker) < 2;
+        std::sync::atomic::fence(Ordering::Acquire);
         let task_is_ready = arc_waker.woken.load(Ordering::Acquire);
         #[cfg(crux_verif)]
         crate::verif::point("cmd.run_task.flag_read");
-        if result == TaskState::Suspended && !task_is_ready && Arc::strong_count(&arc_waker) < 2 {
+        if result == TaskState::Suspended && !task_is_ready && waker_is_unique {
             return TaskState::Cancelled;
         }
 
